@@ -2,6 +2,7 @@ package main
 
 import (
 	"math"
+	"strings"
 	"unicode/utf8"
 )
 
@@ -51,7 +52,22 @@ func (r *Rng) Rune() rune {
 	}
 }
 
+// hostile strings: made of the characters the parser's state machine reacts to
+var hostileRunes = []rune{'\\', '\\', '"', ']', '[', '}', '{', ',', ':', ' ', '\n', 'u', '0', 'n', '/', 'a'}
+
 func (r *Rng) Str() string {
+	if r.Intn(5) == 0 {
+		n := 1 + r.Intn(6)
+		rs := make([]rune, n)
+		for i := range rs {
+			rs[i] = hostileRunes[r.Intn(len(hostileRunes))]
+		}
+		if r.Bool() {
+			// runs of backslashes of every parity at the end
+			rs = append(rs, []rune(strings.Repeat("\\", 1+r.Intn(4)))...)
+		}
+		return string(rs)
+	}
 	n := 0
 	switch r.Intn(6) {
 	case 0:
